@@ -66,16 +66,15 @@ def qbytes_int8pack_mm(activations: torch.Tensor, weights: torch.Tensor, output_
         # which happens with memory-mapped weights (safetensors), and requires contiguous weights
         # (weights quantized from a transposed Tensor are not)
         weights = weights.clone(memory_format=torch.contiguous_format)
-    if activations.ndim == 2:
-        # torch._weight_int8pack_mm requires activations that are contiguous on the last dimension
-        return torch._weight_int8pack_mm(activations.contiguous(), weights, output_scales)
-    else:
-        in_features = activations.shape[-1]
-        out_features = weights.shape[0]
-        output_shape = activations.shape[:-1] + (out_features,)
-        # (the flattened activations must be contiguous on the last dimension as well)
-        out_data = torch._weight_int8pack_mm(activations.reshape(-1, in_features).contiguous(), weights, output_scales)
-        return out_data.view(output_shape)
+    in_features = activations.shape[-1]
+    out_features = weights.shape[0]
+    output_shape = activations.shape[:-1] + (out_features,)
+    # torch._weight_int8pack_mm requires (flattened) activations that are contiguous on the last dimension
+    activations = activations.reshape(-1, in_features).contiguous()
+    if activations.data_ptr() % 32 != 0:
+        # ... and also crashes on CPU when the activations are not aligned on 32 bytes (slice of a larger buffer)
+        activations = activations.clone()
+    return torch._weight_int8pack_mm(activations, weights, output_scales).view(output_shape)
 
 
 @torch.library.impl("quanto::qbytes_mm", "default")
